@@ -1,7 +1,19 @@
 """Per-property manifest entries (source of MANIFEST.json, see tools_manifest.py)."""
-FIX_COMMITS = ["89657fc (C18 lroo uint8)", "99b18da (C02 NaN/inf cells)"]
+FIX_COMMITS = ["89657fc (C18 lroo uint8)", "99b18da (C02 NaN/inf cells)", "fc9bd29 (C04 lc=NaN grid)", "89000f9 (C15 autocorr with gaps)"]
 NOT_APPLICABLE = {}
 CHECKS = {
+ "C03": dict(level="exploration",
+   text="Hypothesis-generated series x gaps x lambda in 10^[-3,5] (and 0) x p at kernel level, and small cubes with permuted dims, s= / sg= (with -inf cells), int16/float inputs at accessor level. Oracle: rint of an independent LAPACK solve, resp. of an explicit 10-pass IRLS model from the zero curve, under the rounding-tie rule; accessor pixels must equal the kernel oracle with lambda=10**sg. Sampled.",
+   note="Trusts LAPACK; fragile envelope decisions (|y-z| below float noise) are excluded from the equality oracle and counted.",
+   technique="property-based testing: Hypothesis generation against an independent reference model (LAPACK solve + IRLS model)"),
+ "C04": dict(level="exploration",
+   text="Hypothesis-generated series x gaps x uniformly spaced sranges x p / lc (incl. NaN, 0.5+-ulp) for the three V-curve kernels, the prange driver and the whitsvc accessor. Oracles: reported lambda is a grid midpoint and lies in the near-minimiser set of an independent V-curve model (tolerance calibrated from the disagreement of two LAPACK solvers); band bit-equal to the fixed-lambda smoother at that lambda; sgrid == float32(log10 lopt); grid choice from lc. Sampled.",
+   note="Series whose reference V-curve is not finite/resolvable (constant, linear, interpolating fits) are counted and held to self-consistency only.",
+   technique="property-based testing: reference-model optimality check + in-package differential (band vs fixed smoother)"),
+ "C15": dict(level="exploration",
+   text="Hypothesis-generated series x gap patterns incl. contiguous outages up to 90 % in int16/nodata and float/NaN encodings; oracles: independent two-pass mean-filled Pearson model (1e-6), range bound, affine invariance, encoding equality, layout/driver/accessor equality. Sampled.",
+   note="Non-integral float data are judged only where the conditioning of single-pass sums leaves room for 1e-6 (counted otherwise).",
+   technique="property-based testing: reference model + metamorphic relations (affine map, encoding, layout)"),
  "C01": dict(level="exploration",
    text="Hypothesis-generated (n, y, w, lambda) incl. zero-weight runs and fractional weights. The decisive oracle is exact: ws2d's own code object executed on Fractions must equal Gaussian elimination on the dense normal equations (no tolerance). The compiled float64 result is then compared with that exact solution under a conditioning-aware forward bound and a backward-error bound evaluated in rationals. Sampled, not exhaustive.",
    note="Trusts Python Fractions and numpy.linalg.cond; the literal 1e-6 of the float clause is demanded for kappa_2<=3e8, kappa*u-proportional beyond (unattainable otherwise).",
